@@ -212,7 +212,7 @@ func runC13(c *Ctx) {
 		c.verdict(key, a.g.Pos(), w1 == w2 && w1 > 0 && got == nil, "Acquire(1) dominates the start; Release(1) deferred before any exit", "semaphore weights differ or Release not registered on all exits")
 	}
 
-	c.clause("C13.c", "T4+T1", "notify channel and counter are read in one critical section; DoPrioritizedTask increments, closes and replaces the channel in one critical section; no start on tasks>0", 6)
+	c.clause("C13.c", "T4+T1", "notify channel and counter are read in one critical section; DoPrioritizedTask increments, closes and replaces the channel in one critical section; no start on tasks>0; the decision is read while the slot is held", 7)
 	c.guardedBy(mgr, "prioritizedTaskStartNotify", "prioritizedTaskStartNotifyMu", true)
 	for _, a := range attempts {
 		// the counter load used for the start decision
@@ -233,6 +233,18 @@ func runC13(c *Ctx) {
 		if dec == nil {
 			c.bad(key, a.g.Pos(), "the prioritized-task counter is not read inside the notify-channel critical section: a prioritized task can begin between the two reads unnoticed")
 			continue
+		}
+		// the decision is taken while holding a slot: a decision taken before queueing on the
+		// semaphore is stale by the time the slot is obtained
+		acqs := callsIn(a.f, func(id string, ci ssa.CallInstruction) bool {
+			if id != "golang.org/x/sync/semaphore.(*Weighted).Acquire" {
+				return false
+			}
+			_, ok := isFieldLoad(ci.Common().Args[0], mgr, "backgroundSem")
+			return ok
+		})
+		if hit, _ := reach(a.f, nil, isInstr(dec), newCuts().addCalls(acqs)); true {
+			c.verdict(c.fnKey(a.f)+":decision-after-acquire", dec.Pos(), hit == nil && len(acqs) > 0, "the counter and the notify channel are read after backgroundSem.Acquire returned", "the start decision is read before the concurrency slot is acquired: a prioritized task that begins while this attempt queues on the semaphore is not noticed, and the body starts during it")
 		}
 		pos := condEdges(a.f, func(cond ssa.Value) int {
 			b, ok := cond.(*ssa.BinOp)
